@@ -27,6 +27,22 @@ fn unique_state(r: &mut Rng, uniq: &mut i32) -> Snap {
     s.bv = (0..d(r)).map(|_| vec![true, nx() % 2 == 0]).collect();
     s.iv = (0..d(r)).map(|_| vec![nx(), nx()]).collect();
     s.fv = (0..d(r)).map(|_| vec![fb(nx() as f32)]).collect();
+    // the items being moved may be RELATED to the rest of the state: names on the NAME stack that are
+    // also bound (one state in three), bare bound names among the CODE items (one in six); flags vary.
+    // LIST instructions move items, they do not look names up
+    if r.chance(1, 3) {
+        for (k, n) in s.n.clone().iter().enumerate().take(3) {
+            s.nb.insert(n.clone(), if k % 2 == 0 { SItem::Int(9000 + k as i32) } else { SItem::List(vec![SItem::Int(9100 + k as i32), SItem::Bool(false), SItem::Float(fb(9.5))]) });
+        }
+    }
+    if r.chance(1, 6) {
+        let key = format!("bound{}", nx());
+        s.nb.insert(key.clone(), SItem::List(vec![SItem::Int(7777), SItem::Bool(true), SItem::Float(fb(7.75))]));
+        let at = r.below(s.c.len() + 1);
+        s.c.insert(at, SItem::Name(key));
+    }
+    s.q = r.chance(1, 8);
+    s.s = r.chance(1, 8);
     s
 }
 
